@@ -219,7 +219,7 @@ OnNext(h, o, hd, x) ==
     [] op = "scan" ->
          LET v == IF st.has THEN st.acc + x ELSE x
              h1 == [Touch(h, Lk("acc", c), "W") EXCEPT !.ctl[c].has = TRUE, !.ctl[c].acc = v]
-         IN Release(SinkNext(Acquire(h1, Lk("acc", c), "R"), c, v))
+         IN SinkNext(Touch(h1, Lk("acc", c), "R"), c, v)          \* the value is copied out; downstream is called with no lock held
     [] op \in {"reduce", "sum"} ->
          [Touch(h, Lk("acc", c), "W") EXCEPT !.ctl[c].has = TRUE, !.ctl[c].acc = IF st.has THEN st.acc + x ELSE x]
     [] op = "sum_and_count" ->
@@ -534,11 +534,12 @@ ReplayItems(h, o, items) == IF items = <<>> \/ h.stuck # "" THEN h ELSE ReplayIt
 SubjSubscribe(h, j, o) ==
   IF h.stuck # "" THEN h ELSE
   CASE h.sbj[j].kind = "behavior" ->
-         LET h1 == Acquire(Acquire(h, Lk("last", j), "R"), Lk("lasterr", j), "R")
+         \* the stored item / error are copied out under short read locks; the observer is called with no lock held
+         LET h1 == Touch(Touch(h, Lk("last", j), "R"), Lk("lasterr", j), "R")
          IN IF h1.stuck # "" THEN h1
-            ELSE IF h1.sbj[j].err.has THEN Release(Release(CallError(h1, o, h1.sbj[j].err.v)))
-            ELSE IF ~h1.sbj[j].last.has THEN Release(Release(CallComplete(h1, o)))
-            ELSE LET h2 == Release(Release(CallNext(h1, o, h1.sbj[j].last.v)))
+            ELSE IF h1.sbj[j].err.has THEN CallError(h1, o, h1.sbj[j].err.v)
+            ELSE IF ~h1.sbj[j].last.has THEN CallComplete(h1, o)
+            ELSE LET h2 == CallNext(h1, o, h1.sbj[j].last.v)
                  IN IF h2.stuck # "" THEN h2 ELSE
                     LET slot == Len(h2.slots) + 1
                         f == Len(h2.obs) + 1
